@@ -44,7 +44,7 @@ def renderObjD (q : ObjD) : Sx :=
 def runSteps : ObjD → List (List Entry × RhsD) → List Sx
   | _, [] => []
   | q, a :: as =>
-    match setitemD q a.1 a.2 with
+    match setitemAny q a.1 a.2 with
     | .ok q' => renderObjD q' :: runSteps q' as
     | .indexError => .atom "IndexError" :: runSteps q as
     | .valueError => .atom "ValueError" :: runSteps q as
